@@ -847,6 +847,9 @@ const OP_ALLOC: u8 = 18;
 /// 19 + r: TreeCache::insert(root r, reference hash of root r) — the public priming call with the
 /// correct hash (the caller's obligation); pair roots only
 const OP_INSERT: u8 = 19;
+/// 40 + k: TreeCache::insert(atom k, its hash) for the three atoms (nil, small 5, 32-byte heap atom):
+/// a no-op by contract ("we only cache pairs"); atom and pair indices live in separate spaces
+const OP_INSERT_ATOM: u8 = 40;
 
 fn root_pair_index(r: usize) -> Option<usize> {
     match r {
@@ -864,6 +867,8 @@ fn op_name(op: u8) -> String {
     };
     if op == OP_ALLOC {
         "alloc".into()
+    } else if op >= OP_INSERT_ATOM {
+        format!("insert(atom {}, its hash)", ["nil", "5", "22..22"][(op - OP_INSERT_ATOM) as usize])
     } else if op >= OP_INSERT {
         format!("insert({}, its hash)", root((op - OP_INSERT) as usize))
     } else if (op as usize) < NROOTS {
@@ -989,6 +994,14 @@ fn exec_history(hist: &[u8], dr: &DagRef) -> Exec {
         if op == OP_ALLOC {
             w.alloc();
             bucket = "bfs/alloc";
+        } else if op >= OP_INSERT_ATOM {
+            let k = (op - OP_INSERT_ATOM) as usize;
+            let h = [h_atom(&[]), h_atom(&[5]), h_atom(&[0x22u8; 32])][k];
+            if let Err(p) = catch(|| cache.insert(w.atoms[k], &TreeHash::new(h))) {
+                misses.push(Miss { routine: "TreeCache::insert", kind: "panic", detail: format!("step {step}: {} panicked: {p}", op_name(op)) });
+                break;
+            }
+            bucket = "bfs/insert-atom";
         } else if op >= OP_INSERT {
             let r = (op - OP_INSERT) as usize;
             let n = w.root(r).expect("root not allocated");
@@ -1066,6 +1079,9 @@ fn alphabet(extras: usize, max_extras: usize, inserts: usize, max_inserts: usize
     if inserts < max_inserts {
         for r in 1..roots {
             ops.push(OP_INSERT + r as u8);
+        }
+        for k in 0..3 {
+            ops.push(OP_INSERT_ATOM + k);
         }
     }
     ops
@@ -1505,6 +1521,80 @@ fn check_curry(p: &Sx, args: &[&Sx], structs: bool) -> Vec<Miss> {
     out
 }
 
+/// typed Rust values through `ToTreeHash` (= `ToClvm<TreeHasher>`, the encoder's default
+/// integer / big-integer routines) and through `ToClvm<Allocator>` + tree_hash, against the
+/// definition applied to the canonical CLVM integer
+fn part_typed_values(rep: &Report) {
+    use num_bigint::BigInt;
+    let mut acc = Acc::default();
+    let vals: Vec<i128> = {
+        let mut v: Vec<i128> = vec![0, 1, -1, 2, 0x17, 0x18, 0x7f, 0x80, 0xff, 0x100, -0x7f, -0x80, -0x81, -0x100, 0x7fff, 0x8000, 0xffff, 0x1_0000, -0x8000, -0x8001];
+        for k in [31u32, 32, 63, 64, 126] {
+            let p = 1i128.checked_shl(k).unwrap_or(i128::MAX);
+            for d in [-1i128, 0, 1] {
+                v.push(p.saturating_add(d));
+                v.push((-p).saturating_add(d));
+            }
+        }
+        v.push(i128::MAX);
+        v.push(i128::MIN);
+        v.sort();
+        v.dedup();
+        v
+    };
+    macro_rules! prim {
+        ($acc:ident, $v:expr, $want:expr, $($t:ty),*) => {$(
+            if let Ok(x) = <$t>::try_from($v) {
+                $acc.evals += 1;
+                let mut out = Vec::new();
+                cmp(&mut out, concat!("ToTreeHash<", stringify!($t), ">"), catch(|| Ok(x.tree_hash().to_bytes())), &$want);
+                cmp(&mut out, concat!("ToClvm<Allocator,", stringify!($t), ">+tree_hash"), catch(|| { let mut a = Allocator::new(); let n = x.to_clvm(&mut a).map_err(|e| format!("{e:?}"))?; Ok(tree_hash(&a, n).to_bytes()) }), &$want);
+                if out.is_empty() { $acc.ok("typed/primitive ok"); } else { $acc.misses("typed", out, &json!({"kind": "typed", "type": stringify!($t), "value": $v.to_string()})); }
+            }
+        )*};
+    }
+    for v in &vals {
+        let want = h_atom(&mc::sx::enc_i128(*v));
+        prim!(acc, *v, want, u8, u16, u32, u64, u128, usize, i8, i16, i32, i64, i128, isize);
+        // big integers: the value itself and the value shifted beyond 128 bits
+        for shift in [0u32, 130] {
+            let b: BigInt = BigInt::from(*v) << shift;
+            let bytes = if b == BigInt::from(0) { vec![] } else { b.to_signed_bytes_be() };
+            let want = h_atom(&bytes);
+            acc.evals += 1;
+            let mut out = Vec::new();
+            cmp(&mut out, "ToTreeHash<BigInt>", catch(|| Ok(b.tree_hash().to_bytes())), &want);
+            cmp(&mut out, "ToClvm<Allocator,BigInt>+tree_hash", catch(|| { let mut a = Allocator::new(); let n = b.to_clvm(&mut a).map_err(|e| format!("{e:?}"))?; Ok(tree_hash(&a, n).to_bytes()) }), &want);
+            // a pair (BigInt . value) and a curried program carrying it, as the wallet code builds them
+            let pw = h_pair(&want, &h_atom(&mc::sx::enc_i128(*v)));
+            cmp(&mut out, "ToTreeHash<(BigInt, i128)>", catch(|| Ok((b.clone(), *v).tree_hash().to_bytes())), &pw);
+            if out.is_empty() { acc.ok("typed/bigint ok"); } else { acc.misses("typed", out, &json!({"kind": "typed", "type": "BigInt", "value": b.to_string()})); }
+        }
+    }
+    // byte strings (atoms), lists of small integers (Vec<u8> is a list, not an atom), unit, tuples
+    for len in [0usize, 1, 2, 31, 32, 33, 100] {
+        let b = pattern(len);
+        let want = h_atom(&b);
+        // proper list (b0 b1 ... ) of integers, nil-terminated
+        let list = b.iter().rev().fold(h_atom(&[]), |t, x| h_pair(&h_atom(&mc::sx::enc_u64(u64::from(*x))), &t));
+        acc.evals += 1;
+        let mut out = Vec::new();
+        let bytes = chia_protocol::Bytes::new(b.clone());
+        cmp(&mut out, "ToTreeHash<Bytes>", catch(|| Ok(bytes.tree_hash().to_bytes())), &want);
+        cmp(&mut out, "ToTreeHash<(Bytes, ())>", catch(|| Ok((bytes.clone(), ()).tree_hash().to_bytes())), &h_pair(&want, &h_atom(&[])));
+        cmp(&mut out, "ToTreeHash<Vec<u8>> (a list)", catch(|| Ok(b.clone().tree_hash().to_bytes())), &list);
+        cmp(&mut out, "ToTreeHash<&[u8]> (a list)", catch(|| Ok(b.as_slice().tree_hash().to_bytes())), &list);
+        if len == 32 {
+            let b32 = chia_protocol::Bytes32::new(b.clone().try_into().unwrap());
+            cmp(&mut out, "ToTreeHash<Bytes32>", catch(|| Ok(b32.tree_hash().to_bytes())), &want);
+        }
+        if out.is_empty() { acc.ok("typed/bytes ok"); } else { acc.misses("typed", out, &json!({"kind": "typed", "type": "bytes", "value": hex::encode(&b)})); }
+    }
+    rep.extra("typed_integer_values", json!(vals.len()));
+    rep.sample(json!({"typed": "BigInt 0, i64 0, u8 0 and () all hash as the empty atom; -129i16 hashes as ff7f"}));
+    acc.flush(rep);
+}
+
 fn part_curry(rep: &Report) {
     let vals = curry_values(rep.tier);
     let nv = vals.len() as u64;
@@ -1574,7 +1664,7 @@ fn run(rep: &Report) {
     let max_extras: usize = std::env::var("C17_EXTRAS").ok().and_then(|s| s.parse().ok()).unwrap_or(t.pick(2, 3));
 
     rep.set_rule(&format!(
-        "E: the 24 precomputed constants; every leaf of a {}-element alphabet (contents nil, 00..1a, 7f, 80, ff, 2..5-byte integers around the small-atom limit, strings of 31..1000 bytes; constructors nil/one/new_atom/new_small_number/new_number/new_substr/new_concat, i.e. both the small-integer and the heap representation of the same bytes) as a root and in every ordered pair (x . y); every small-integer atom in [0, {small_end}); every pair table p_i = (c_l . c_r), c in leaves + earlier pairs (all DAGs incl. unshared trees, duplicated equal pairs and unreachable pairs) for (pairs, leaves, serialisations) in {tables:?}, root = last pair; 10^5-deep and 10^5-long lists, perfect DAGs of depth 17/{}, a Fibonacci DAG; currying of every (program, args) over {} values for 0..4 arguments and over 4 values for 5..6; for (pairs, leaves, spends) in {blocks:?} every table x every list of that many spends whose puzzle reveals (f (q . (() . p_i))) carry the table's pairs, as a plain and as a back-reference generator, through run_block_generator (hashes computed by the CLVM ROM), run_block_generator2, additions_and_removals, get_coinspends_for_trusted_block and get_coinspends_with_conditions_for_trusted_block (one TreeCache across all puzzle reveals; puzzle hash and coin id of every spend). H: for (pairs, leaves) in {graphs:?} the COMPLETE state graph of every table under visit_tree(p_i)/tree_hash_cached(p_i) on one shared TreeCache (BFS until no new cache state appears: histories of any length); for (pairs, leaves, length) in {seqs:?} every table x every operation sequence of that length; the complete state graph (depth bound {bfs_depth}, fixpoint reported) of visit_tree/tree_hash_cached on the roots {{atom, p0..p4, e1..e{max_extras}}} of a fixed DAG plus 'allocate the next pair e_j' (pairs created after the cache was used; p5 never visited directly) plus at most {max_inserts} direct TreeCache::insert(root, definition's hash) priming call(s) per history. States are deduplicated on (pairs allocated, pairs[], hashes[]) read through hook H2 (exact, no hashing). Oracle on every transition: returned hash = definition, and TreeCache::get of every pair is None or the definition's hash. distinct_nontrivial counts leaves, big structures, curry cases and fixed-DAG states only (tables, table-graph states and sequences are counted in the extras)",
+        "E: the 24 precomputed constants; every leaf of a {}-element alphabet (contents nil, 00..1a, 7f, 80, ff, 2..5-byte integers around the small-atom limit, strings of 31..1000 bytes; constructors nil/one/new_atom/new_small_number/new_number/new_substr/new_concat, i.e. both the small-integer and the heap representation of the same bytes) as a root and in every ordered pair (x . y); every small-integer atom in [0, {small_end}); every pair table p_i = (c_l . c_r), c in leaves + earlier pairs (all DAGs incl. unshared trees, duplicated equal pairs and unreachable pairs) for (pairs, leaves, serialisations) in {tables:?}, root = last pair; 10^5-deep and 10^5-long lists, perfect DAGs of depth 17/{}, a Fibonacci DAG; typed values through ToTreeHash / TreeHasher and through ToClvm<Allocator> (12 primitive integer types and BigInt over 44 boundary values incl. 0 and +-2^k, BigInt beyond 128 bits, byte strings, tuples); currying of every (program, args) over {} values for 0..4 arguments and over 4 values for 5..6; for (pairs, leaves, spends) in {blocks:?} every table x every list of that many spends whose puzzle reveals (f (q . (() . p_i))) carry the table's pairs, as a plain and as a back-reference generator, through run_block_generator (hashes computed by the CLVM ROM), run_block_generator2, additions_and_removals, get_coinspends_for_trusted_block and get_coinspends_with_conditions_for_trusted_block (one TreeCache across all puzzle reveals; puzzle hash and coin id of every spend). H: for (pairs, leaves) in {graphs:?} the COMPLETE state graph of every table under visit_tree(p_i)/tree_hash_cached(p_i) on one shared TreeCache (BFS until no new cache state appears: histories of any length); for (pairs, leaves, length) in {seqs:?} every table x every operation sequence of that length; the complete state graph (depth bound {bfs_depth}, fixpoint reported) of visit_tree/tree_hash_cached on the roots {{atom, p0..p4, e1..e{max_extras}}} of a fixed DAG plus 'allocate the next pair e_j' (pairs created after the cache was used; p5 never visited directly) plus at most {max_inserts} direct TreeCache::insert(pair root or one of the three atoms, definition's hash) priming call(s) per history. States are deduplicated on (pairs allocated, pairs[], hashes[]) read through hook H2 (exact, no hashing). Oracle on every transition: returned hash = definition, and TreeCache::get of every pair is None or the definition's hash. distinct_nontrivial counts leaves, big structures, curry cases and fixed-DAG states only (tables, table-graph states and sequences are counted in the extras)",
         leaf_alphabet().len(),
         t.pick(12, 20),
         curry_values(t).len(),
@@ -1610,6 +1700,8 @@ fn run(rep: &Report) {
     lap("big");
     part_curry(rep);
     lap("curry");
+    part_typed_values(rep);
+    lap("typed values");
     for (n, k, sp) in &blocks {
         part_blocks(rep, *n, *k, *sp);
         lap(&format!("blocks n={n} k={k} spends={sp}"));
@@ -1721,6 +1813,26 @@ fn replay(case: &Value) -> String {
             let p = &vals[case["program"].as_u64().unwrap() as usize];
             let args: Vec<&Sx> = case["args"].as_array().unwrap().iter().map(|i| &vals[i.as_u64().unwrap() as usize]).collect();
             format!("program {p:?} args {args:?}\ncurried: {:?}\n{}", curried_reference(p, &args), describe(check_curry(p, &args, args.len() <= 4)))
+        }
+        "typed" => {
+            let ty = case["type"].as_str().unwrap_or("");
+            let val = case["value"].as_str().unwrap_or("");
+            if ty == "bytes" {
+                let b = hex::decode(val).unwrap();
+                let bytes = chia_protocol::Bytes::new(b.clone());
+                format!("bytes {val}
+ToTreeHash<Bytes>   {}
+ToTreeHash<Vec<u8>> {}
+definition (atom)   {}", hx(&bytes.tree_hash().to_bytes()), hx(&b.tree_hash().to_bytes()), hx(&h_atom(&b)))
+            } else {
+                let b: num_bigint::BigInt = val.parse().expect("integer");
+                let bytes = if b == num_bigint::BigInt::from(0) { vec![] } else { b.to_signed_bytes_be() };
+                let prim = i128::try_from(b.clone()).ok().map(|v| hx(&v.tree_hash().to_bytes()));
+                format!("{ty} {val}: canonical atom {}
+ToTreeHash<BigInt> {}
+ToTreeHash<i128>   {:?}
+definition         {}", hex::encode(&bytes), hx(&b.tree_hash().to_bytes()), prim, hx(&h_atom(&bytes)))
+            }
         }
         other => format!("unknown case kind {other:?}"),
     }
